@@ -19,7 +19,7 @@
 static int n_creators, n_shared, iters, mode;
 static uint64_t seed0;
 static int live_desc[MAXT];           /* descriptor currently held by creator t (0 = none) */
-static pthread_barrier_t bar;
+static pthread_barrier_t bar, hbar;
 static int shared_desc, shared_k = 4, shared_m = 2, shared_tol = 2;
 static long errors, dup_desc, ops;
 static pthread_mutex_t emu = PTHREAD_MUTEX_INITIALIZER;
@@ -111,6 +111,39 @@ static void *creator(void *arg)
     }
     return NULL;
 }
+/* mode bit3: every creator holds SIX instances at a time (so that dozens are live at once and the registry list is
+ * long), uses them, and destroys them back to back while the other threads do the same; a destroyed descriptor must be
+ * dead for its owner immediately (its number may be reissued to another thread, so only the owner's next size query
+ * directly after its own destroy of a descriptor it has not seen reissued is judged) */
+#define HOLD 6
+static void *hoarder(void *arg)
+{
+    int t = (int)(long)arg, it; uint64_t s = seed0 * 3000 + t;
+    static const int cfg[4][5] = { {6, 4, 2, 2, 16}, {3, 5, 5, 3, 32}, {0, 4, 2, 2, 32}, {6, 2, 1, 1, 16} };
+    pthread_barrier_wait(&bar);
+    for (it = 0; it < iters; it++) {
+        int d[HOLD], kk[HOLD], mm[HOLD], tl[HOLD], j, rc;
+        for (j = 0; j < HOLD; j++) {
+            const int *c = cfg[(t + it + j) % 4]; struct ec_args a;
+            memset(&a, 0, sizeof a); a.k = c[1]; a.m = c[2]; a.hd = c[3]; a.w = c[4]; a.ct = CHKSUM_CRC32;
+            d[j] = liberasurecode_instance_create((ec_backend_id_t)c[0], &a);
+            kk[j] = c[1]; mm[j] = c[2]; tl[j] = c[0] == 3 ? c[3] - 1 : c[2];
+            if (d[j] <= 0) fail("create", t, it, d[j]);
+            if (c[0] == 0) tl[j] = -1;                       /* null backend: no round trip */
+        }
+        for (j = 0; j < HOLD; j++) if (d[j] > 0 && tl[j] >= 0) roundtrip(d[j], kk[j], mm[j], tl[j], &s, t, it);
+        /* destroy in an order that differs from thread to thread; all hoarders start destroying together */
+        pthread_barrier_wait(&hbar);
+        for (j = 0; j < HOLD; j++) {
+            int q = (j * 5 + t) % HOLD;
+            if (d[q] <= 0) continue;
+            rc = liberasurecode_instance_destroy(d[q]);
+            if (rc != 0) fail("destroy", t, it, rc);
+        }
+        __sync_fetch_and_add(&ops, 2 * HOLD);
+    }
+    return NULL;
+}
 static void *shared_user(void *arg)
 {
     int t = (int)(long)arg, it; uint64_t s = seed0 * 7777 + t;
@@ -135,7 +168,8 @@ int main(int argc, char **argv)
         if (shared_desc <= 0) { printf("{\"error\":\"cannot create shared instance\"}\n"); return 2; }
     }
     pthread_barrier_init(&bar, NULL, n_creators + n_shared);
-    for (i = 0; i < n_creators; i++) pthread_create(&th[n++], NULL, creator, (void *)(long)i);
+    pthread_barrier_init(&hbar, NULL, n_creators > 0 ? n_creators : 1);
+    for (i = 0; i < n_creators; i++) pthread_create(&th[n++], NULL, (mode & 8) ? hoarder : creator, (void *)(long)i);
     for (i = 0; i < n_shared; i++) pthread_create(&th[n++], NULL, shared_user, (void *)(long)i);
     for (i = 0; i < n; i++) pthread_join(th[i], NULL);
     if (n_shared > 0) liberasurecode_instance_destroy(shared_desc);
